@@ -359,6 +359,17 @@ func (h *rHist) record(act, human string) rObs {
 func (h *rHist) fail(clause, desc string) {
 	h.oracle = append(h.oracle, OracleFailure{Property: "C16", Clause: clause, Desc: desc,
 		Input: map[string]any{"own": h.own, "limits": []int{h.cdl, h.cdc}, "only_once": h.once, "history": append([]string{}, h.log...)}})
+	if clause == "once-exits" {
+		// ... and C09's: an instance that never stops waiting for start-up snapshots never uploads
+		h.oracle = append(h.oracle, OracleFailure{Property: "C09", Clause: "upload-gating-never-ends", Desc: desc,
+			Input: map[string]any{"own": h.own, "limits": []int{h.cdl, h.cdc}, "only_once": h.once, "history": append([]string{}, h.log...)}})
+	}
+	if clause == "tokens-returned" || clause == "once-exits" {
+		// the same fact is C17's: a token that is never given back leaves every later downloader blocked in Acquire
+		// for ever; a loop that never stops waiting never returns
+		h.oracle = append(h.oracle, OracleFailure{Property: "C17", Clause: "blocks-forever/" + clause, Desc: desc,
+			Input: map[string]any{"own": h.own, "limits": []int{h.cdl, h.cdc}, "only_once": h.once, "history": append([]string{}, h.log...)}})
+	}
 }
 func (h *rHist) fail08(clause, desc string) {
 	h.oracle = append(h.oracle, OracleFailure{Property: "C08", Clause: clause, Desc: desc,
